@@ -281,6 +281,7 @@ static IsoOut isolate(const std::function<void(Violations &, RunOutcome &)> &fn)
         for (auto &v : lv) s += "V\t" + v.prop + "\t" + clean(v.cls) + "\t" + clean(v.detail) + "\t" + std::to_string(v.op) + "\n";
         for (auto &kv : lo.ctr) s += "C\t" + kv.first + "\t" + std::to_string(kv.second) + "\n";
         s += "N\t" + std::to_string(lo.nontrivial_units) + "\n";
+        s += "E\t" + std::to_string(sim::edges_covered()) + "\n";
         for (uint64_t u : lo.unit_hashes) s += "U\t" + std::to_string(u) + "\n";
         size_t off = 0; while (off < s.size()) { ssize_t w = write(fd[1], s.data() + off, s.size() - off); if (w <= 0) break; off += (size_t) w; }
         _exit(0);
@@ -304,6 +305,7 @@ static IsoOut isolate(const std::function<void(Violations &, RunOutcome &)> &fn)
         if (f[0] == "V" && f.size() >= 5) { Violation v{f[1], f[2], f[3], atoi(f[4].c_str())}; r.v.push_back(v); }
         else if (f[0] == "C" && f.size() >= 3) r.o.ctr[f[1]] += strtoull(f[2].c_str(), nullptr, 10);
         else if (f[0] == "N" && f.size() >= 2) r.o.nontrivial_units += strtoull(f[1].c_str(), nullptr, 10);
+        else if (f[0] == "E" && f.size() >= 2) sim::note_child_edges(strtoull(f[1].c_str(), nullptr, 10));
         else if (f[0] == "U" && f.size() >= 2) r.o.unit_hashes.push_back(strtoull(f[1].c_str(), nullptr, 10));
     }
     return r;
